@@ -292,6 +292,18 @@ class Ledger(qsim.Oracle):
                     r.mark_seq = ev["seq"]
                     ev["rcpt"] = r
                     ev["msg"] = m
+                    ev["last_report_before_mark"] = r.reports[-1] if r.reports else None
+                    if r.reports and r.reports[-1] == "Z":
+                        # a Z answered in a dying pass (pass opened when recent > birth + lifetime, as the
+                        # daemon computes it from the observed info mtime) is documented to become a failure
+                        po = m.pass_open.get(r.chan, [])
+                        opened = po[-1][0] if po else None
+                        if opened is not None and m.birth is not None and opened > m.birth + self.lifetime:
+                            r.reports[-1] = "D"
+                            r.bounce_text = b"(expired)"
+                            r.finished_gen = self.generation
+                            m.lifetime_hit = True
+                            ev["expired"] = True
         elif c == "unlink" and d == "info" and ev.get("role", "").startswith("send"):
             m = self.msg(num)
             if m is not None and m.records is not None:
